@@ -107,15 +107,69 @@ def raising(ld, r, count):
     return fails
 
 
+def freeze_family(ld, r, count):
+    """pipelines whose consumers ask their input for a frozen copy (catch, multi-worker prefetch, lazy apply) over
+    stages that react to freezing (reshuffle per epoch, lazy apply) - plain vs. profiled, identically seeded"""
+    import numpy as np
+    fails = []
+    with warnings.catch_warnings():
+        warnings.simplefilter('ignore')
+        for _ in range(count):
+            n = r.randint(0, 7)
+            seed = r.randint(0, 10 ** 6)
+            keyed = r.random() < 0.5
+            lower = [r.choice(['map', 'reshuffle', 'reshuffle', 'lazyapply', 'localshuffle', 'filter', 'slice', 'shuffle1']) for _ in range(r.randint(1, 3))]
+            upper = [r.choice(['catch', 'prefetchN', 'prefetchN_catch', 'lazyapply_top', 'catch_items', 'map'])for _ in range(r.randint(1, 2))]
+
+            def build():
+                rng = np.random.RandomState(seed)
+                ds = ld.new({f'k{i}': i for i in range(n)} if keyed else list(range(n)))
+                for st in lower + upper:
+                    if st == 'map': ds = ds.map(_inc)
+                    elif st == 'reshuffle': ds = ds.shuffle(True, rng=rng)
+                    elif st == 'shuffle1': ds = ds.shuffle(False, rng=rng)
+                    elif st == 'localshuffle': ds = ds.shuffle(True, rng=rng, buffer_size=3)
+                    elif st == 'lazyapply': ds = ds.apply(_ap_map, lazy=True)
+                    elif st == 'lazyapply_top': ds = ds.apply(_ap_id, lazy=True)
+                    elif st == 'filter': ds = ds.filter(_odd)
+                    elif st == 'slice': ds = ds[:max(0, n - 1)] if ds.indexable else ds
+                    elif st == 'catch': ds = ds.catch()
+                    elif st == 'catch_items': ds = ds.catch()
+                    elif st == 'prefetchN': ds = ds.prefetch(2, 2)
+                    elif st == 'prefetchN_catch': ds = ds.prefetch(2, 3, catch_filter_exception=True)
+                return ds
+            try:
+                plain_ds = build()
+            except Exception:
+                continue
+            plain = gen_a.obs_iter(plain_ds, False)
+            try:
+                wrapped = gen_a.obs_iter(ld.core.ProfilingDataset(build()), False)
+            except Exception as e:
+                wrapped = ('ctor', type(e).__name__)
+            same = repr(plain) == repr(wrapped) or (plain[1] is not None and wrapped[0] != 'ctor' and wrapped[1] is not None
+                                                    and plain[1][0] == wrapped[1][0] and repr(plain[0]) == repr(wrapped[0]))
+            if not same:
+                fails.append(f'profiling changes the iteration of new(range({n}){" keyed" if keyed else ""}).{".".join(lower + upper)} (seed {seed}): {plain!r} vs wrapped {wrapped!r}')
+    return fails
+
+
+def _inc(x): return x + 1
+def _odd(x): return x % 2 == 1
+def _ap_map(d): return d.map(_inc)
+def _ap_id(d): return d
+
+
 def run(tier):
     ld = common.import_impl()
     big = tier != 'quick'
     res = model_b.run_b('C20', tier, want_prof=True)
     r = common.rng_for('C20-direct')
-    for msg in transparency(ld, r, 1500 if big else 250) + raising(ld, r, 200 if big else 30):
+    for msg in transparency(ld, r, 1500 if big else 250) + raising(ld, r, 200 if big else 30) + freeze_family(ld, r, 1500 if big else 200):
         res['failures'].append(dict(kind='program', summary=msg[:900], config={}))
     res['coverage']['transparency_programs'] = 1500 if big else 250
     res['coverage']['raising_cases'] = 200 if big else 30
+    res['coverage']['freeze_family_pipelines'] = 1500 if big else 200
     res['coverage']['evaluations'] += (1500 if big else 250) + (200 if big else 30)
     return res
 
